@@ -14,6 +14,9 @@ package main
 // members, field primitives), go2lean_map.go (read-only maps),
 // go2lean_inout.go (in-out parameters, map writes, primitives that swallow
 // arguments); ratessrc.go / headersrc.go are configurations that use them.
+// go2lean_string.go (strings as byte lists, error / interface{} as Options,
+// map literals, make + element assignment, Sprintf, comma-ok pairs; ON only
+// when Basic["string"] is set); taxidsrc.go is the configuration that uses it.
 //
 // HOW TO USE IT FOR ANOTHER PACKAGE (numsrc.go is the worked example,
 // testdata/g2l + go2lean_test.go the fixture for everything num does not need):
@@ -335,12 +338,19 @@ func g2lKindOf(t types.Type) g2lKind {
 		return kList
 	case *types.Pointer:
 		return kPtr
+	case *types.Interface:
+		if g2lIsErrorType(t) { // go2lean_string.go: `error` is an Option (nil = none)
+			return kPtr
+		}
 	}
 	return kOther
 }
 
 // leanType maps a Go type to Lean type text, or fails.
 func (g *g2l) leanType(t types.Type) (string, error) {
+	if l, ok, err := g.leanTypeExt(t); ok { // go2lean_string.go: configured non-named types, maps
+		return l, err
+	}
 	switch tt := t.(type) {
 	case *types.Basic:
 		if tt.Kind() == types.Invalid {
@@ -421,7 +431,7 @@ func (g *g2l) zero(t types.Type) (string, error) {
 	case kBool:
 		return "false", nil
 	case kString:
-		return `""`, nil
+		return g.strConst(""), nil // go2lean_string.go
 	case kPtr:
 		return "(none : " + lt + ")", nil
 	case kList:
